@@ -164,6 +164,29 @@ def tree_text(nd):
     return '(%d %s%s %s)' % (nd['c'], nd['lab'], '' if nd['k'] == 'U' else ('<' if nd['hl'] else '>'), ' '.join(tree_text(k) for k in nd['kids']))
 
 
+def twin_head_case(rng):
+    """three words; X over two adjacent words by (A B -> X, head left) and (C D -> X, head right); the third word's second-best
+    tag E combines with X (on its left or its right, head on either side); dependency scores at random"""
+    from depccg.cat import Category
+    from depccg.types import CombinatorResult
+    A, Bc, C, D, Y, Z, X, S = [Category.parse(c) for c in 'A B C D E F X S'.split()]
+    lex, allc = [A, Bc, C, D, Y, Z], [A, Bc, C, D, Y, Z, X, S]
+    y_first = rng.random() < 0.5
+    B = {(A, Bc): [CombinatorResult(X, 'ab', '<ab>', True)], (C, D): [CombinatorResult(X, 'cd', '<cd>', False)]}
+    B[(Y, X) if y_first else (X, Y)] = [CombinatorResult(S, 'yx', '<yx>', rng.random() < 0.5)]
+    U = {}
+    lo = -32
+    first, second = [0, lo, -rng.choice([0, 1, 2]), lo, lo, lo], [lo, 0, lo, -rng.choice([0, 1, 2]), lo, lo]
+    # the third word has a better tag (F, which combines with nothing): the outside estimate of the X items is made with it,
+    # so they are popped before the leaf E that they combine with
+    yrow = [lo, lo, lo, lo, -rng.choice([4, 8, 12]), 0]
+    tag8 = [yrow, first, second] if y_first else [first, second, yrow]
+    dep8 = [[-rng.randrange(0, 9) for _ in range(4)] for _ in range(3)]
+    g = {'lex': lex, 'allc': allc, 'B': B, 'U': U, 'roots': [S], 'uniform': False, 'kind': 'synthetic-M',
+         'bin': lambda x, y: list(B.get((x, y), [])), 'un': lambda x: list(U.get(x, []))}
+    return g, 3, tag8, dep8
+
+
 def make_scores(rng, n, K, style):
     if style == 'ties':
         vals = [0, 0, -8, -8, -16]
@@ -362,6 +385,14 @@ def make_specs(prop, tier, rng):
         style = rng.choice(['ties', 'small', 'wide', 'wide'])
         tag8, dep8 = make_scores(rng, n, len(g['lex']), style)
         cfg = rand_cfg(rng, prop)
+        if prop in ('C02', 'C09', 'C12') and rng.random() < 0.06:
+            # one constituent derived twice with different head words (a head-left and a head-right rule build the same
+            # category over the same two words), and a poorly scored neighbour that is popped after both and combines with
+            # each: the score of every derivation is made of ITS heads (C09 speaks of every grammar, k-best lists included)
+            g, n, tag8, dep8 = twin_head_case(rng)
+            cfg = dict(cfg, k=rng.choice([2, 3, 5, 50]), prune=50, usebeta=False, maxstep=10 ** 7)
+            specs.append((g, n, tag8, dep8, cfg))
+            continue
         if prop == 'C09' and g['kind'].startswith('synthetic') and rng.random() < 0.15:
             # C09 speaks of every grammar: a unary rule that returns its argument (each application costs the penalty).  The
             # derivations are then infinitely many, so the step budget is kept small; only the clauses of C09 are meaningful.
